@@ -101,6 +101,7 @@ type Outcome struct {
 	Probes    map[string]int64 `json:"probes,omitempty"`
 	Keys      []uint64         `json:"keys,omitempty"` // distinct non-trivial case keys
 	Trace     []string         `json:"trace,omitempty"`
+	Tapes     [][]Decision     `json:"tapes,omitempty"` // recorded schedule per phase (replay mode)
 }
 
 func Load(path string) (*Scn, error) {
